@@ -11,7 +11,6 @@ Open Scope Z_scope.
 
 Definition collapse_ok_b (idx : iindex) (prec : list Z) : bool :=
   match hshape idx with [n] => n <? 2 ^ 64 | _ => false end
-  && nodupZ_b prec
   && match prec with
      | [] => false
      | p0 :: _ => let mn := zmin_list p0 prec in let mx := zmax_list p0 prec in
@@ -19,9 +18,8 @@ Definition collapse_ok_b (idx : iindex) (prec : list Z) : bool :=
      end.
 Lemma collapse_ok_b_sound idx prec : collapse_ok_b idx prec = true -> collapse_ok idx prec.
 Proof.
-  unfold collapse_ok_b, collapse_ok. rewrite !andb_true_iff. intros [[H1 H2] H3]. split; [|split].
+  unfold collapse_ok_b, collapse_ok. rewrite !andb_true_iff. intros [H1 H3]. split.
   - destruct (hshape idx) as [|n [|? ?]]; try discriminate. exists n. apply Z.ltb_lt in H1. auto.
-  - apply nodupZ_b_spec. exact H2.
   - destruct prec as [|p0 t]; [discriminate|]. cbv zeta in H3. rewrite !andb_true_iff, orb_true_iff, negb_true_iff in H3.
     destruct H3 as [[A B] C]. apply Z.leb_le in A. apply Z.ltb_lt in B. unfold int_range. split; [exact A|]. split; [exact B|].
     intros Hn. destruct C as [C|C]; [apply Z.ltb_ge in C; lia|apply Z.ltb_lt in C; exact C].
